@@ -427,8 +427,9 @@ func (nfs *Nfs) doCreate(dfh nfstypes.Nfs_fh3, name nfstypes.Filename3, kind nfs
 		dip.WriteInode(op.Atxn)
 	}
 	if kind == nfstypes.NF3LNK {
-		_, ok := ip.Write(op.Atxn, uint64(0), uint64(len(data)), data)
-		if !ok {
+		cnt, ok := ip.Write(op.Atxn, uint64(0), uint64(len(data)), data)
+		if !ok || cnt != uint64(len(data)) {
+			// a target stored in part is not the target
 			nfs.doDecLink(op, ip)
 			err = nfstypes.NFS3ERR_NOSPC
 			return
